@@ -15,6 +15,49 @@ from .names import find, norm
 
 # ---------------------------------------------------------------------------- lowering
 
+def class_string_constants(data):
+    """(internal class name, {constant pool index of a CONSTANT_String: hex of its (modified) UTF-8 bytes}) of a class file"""
+    import struct
+    assert data[:4] == b'\xca\xfe\xba\xbe'
+    n = struct.unpack('>H', data[8:10])[0]
+    pos = 10
+    cp = [None] * n
+    i = 1
+    while i < n:
+        tag = data[pos]
+        if tag == 1:
+            ln = struct.unpack('>H', data[pos + 1:pos + 3])[0]
+            cp[i] = ('utf8', data[pos + 3:pos + 3 + ln])
+            pos += 3 + ln
+        elif tag in (3, 4):
+            pos += 5
+        elif tag in (5, 6):
+            pos += 9
+            i += 1
+        elif tag == 7:
+            cp[i] = ('class', struct.unpack('>H', data[pos + 1:pos + 3])[0])
+            pos += 3
+        elif tag == 8:
+            cp[i] = ('string', struct.unpack('>H', data[pos + 1:pos + 3])[0])
+            pos += 3
+        elif tag in (9, 10, 11, 12, 17, 18):
+            pos += 5
+        elif tag == 15:
+            pos += 4
+        elif tag in (16, 19, 20):
+            pos += 3
+        else:
+            raise ValueError('constant pool tag %d' % tag)
+        i += 1
+    this_class = struct.unpack('>H', data[pos + 2:pos + 4])[0]
+    name = cp[cp[this_class][1]][1].decode()
+    out = {}
+    for k, e in enumerate(cp):
+        if e and e[0] == 'string':
+            out[str(k)] = cp[e[1]][1].hex()
+    return name, out
+
+
 def java_rt_dir():
     return build.shared_dir('java_rt', glob.glob(os.path.join(build.VERIF, 'runtimes', 'java', '**', '*.java'), recursive=True))
 
@@ -62,6 +105,15 @@ def lower_java(progs, emits, tag):
                     res['errors'] = ['javap failed: ' + rj.stderr[-200:]]
                 else:
                     open(os.path.join(d, 'javap.txt'), 'w').write(rj.stdout)
+                    # javap prints string constants without their trailing blanks: take them from the class files themselves
+                    strs = {}
+                    for cf in cls:
+                        try:
+                            name, consts = class_string_constants(open(cf, 'rb').read())
+                            strs[name] = consts
+                        except Exception:
+                            pass
+                    json.dump(strs, open(os.path.join(d, 'strings.json'), 'w'))
             shutil.rmtree(os.path.join(d, 'classes'), ignore_errors=True)
             json.dump(res, open(os.path.join(d, 'lower.json'), 'w'))
 
@@ -171,7 +223,11 @@ def parse_javap(text):
                         comment = ''
                         if '//' in rest:
                             k = rest.index('//')
-                            comment = rest[k + 2:].strip()
+                            comment = rest[k + 2:]
+                            # a string constant is shown verbatim after "// String ": its own leading/trailing blanks are content
+                            comment = comment[1:] if comment.startswith(' ') else comment
+                            if not comment.startswith('String '):
+                                comment = comment.strip()
                             rest = rest[:k].strip()
                         if op in ('lookupswitch', 'tableswitch'):
                             table = {}
@@ -372,6 +428,8 @@ class JavaFE:
             self.rejects = [norm_javac(e) for e in lj['errors']]
             return
         self.classes = parse_javap(open(os.path.join(ldir, 'javap.txt')).read())
+        sp = os.path.join(ldir, 'strings.json')
+        self.strconsts = json.load(open(sp)) if os.path.exists(sp) else {}
         for c in self.classes.values():
             for k, m in c.methods.items():
                 self.functions_encoded.append(c.name + '.' + m.name)
@@ -547,7 +605,11 @@ class JavaFE:
                 elif op in ('bipush', 'sipush'):
                     push(int(arg))
                 elif op in ('ldc', 'ldc_w', 'ldc2_w'):
-                    push(self.ldc(cmt))
+                    hx = (self.strconsts.get(m.cls.name) or {}).get(str(arg).lstrip('#')) if cmt.startswith('String') else None
+                    if hx is not None:
+                        push(JStr([z3.BitVecVal(c, 8) for c in bytes.fromhex(hx)]))
+                    else:
+                        push(self.ldc(cmt))
                 elif op == 'i2b':
                     push(narrow(pop(), 8))
                 elif op == 'i2s':
@@ -825,7 +887,22 @@ class JavaFE:
                 return 1 if not recv.bs else 0
             if mn in ('toString', 'intern', 'trim'):
                 if mn == 'trim':
-                    raise Unsupported('String.trim')
+                    # String.trim(): drop leading and trailing chars <= U+0020 (the string is carried as UTF-8 bytes; bytes of a
+                    # multi-byte sequence are all >= 0x80, so a byte-wise trim is the same thing)
+                    bs = list(recv.bs)
+                    while bs:
+                        b0 = bs[0]
+                        c = (conc(b0) <= 0x20) if conc(b0) is not None else self.ctl.branch(z3.ULE(b0, 0x20))
+                        if not c:
+                            break
+                        bs.pop(0)
+                    while bs:
+                        b0 = bs[-1]
+                        c = (conc(b0) <= 0x20) if conc(b0) is not None else self.ctl.branch(z3.ULE(b0, 0x20))
+                        if not c:
+                            break
+                        bs.pop()
+                    return JStr(bs)
                 return recv
             if mn == 'valueOf':
                 return JStr([], opaque=True)
